@@ -5,4 +5,5 @@ CONSTANTS
   TextReps <- BoundaryText
   MaxText = 3
   IndexMode = "size_t_of_char"
+  ReadMode = "forward"
 INVARIANTS IndexInTable
